@@ -3066,7 +3066,13 @@ def run(ctx):
                 "unvalidated against validated (Experiment.validateExperiment(checkExecutables=True)), validated at "
                 "two places, a replicated twin (2-3 replicas) of a component on validated / unvalidated experiments, "
                 "4 one-aspect pairs on the validated experiment; histories with validate steps between the file "
-                "changes and reloads.")
+                "changes and reloads. Nested spellings: a consumer of 2-4 producers / direct files whose reference "
+                "spellings contain each other at word boundaries (S, x-S, a-S, B-S, x-y-S; data/f next to my-data/f; "
+                "files, directories, standard outputs; relative / absolute; random document order of the references) "
+                "with the aspects producer-name (other prefix, stem alone, unrelated name), content-swap (two files "
+                "named at different places of the arguments exchange their contents: different strong hash), "
+                "produced-content, order, name, location, twin, stage, args, method; content-swap also on the "
+                "general family.")
     ctx.assumptions = [
         "md5 of the model is a table of hashlib digests filled by the harness (pre-images: file contents and the "
         "serialisations returned by the model); the theorems take md5 as a parameter with Function.Injective md5 as "
